@@ -474,6 +474,12 @@ pub fn build(
                     "field `{name}` of type `{resolvee_path}` is not a cloneable type, but `{resolvee_path}` is marked as cloneable"
                 );
             }
+            // `derive(Clone)` on a packed struct cannot borrow its fields, it has to copy them.
+            if packed && cloneable && !field_copyable {
+                anyhow::bail!(
+                    "field `{name}` of packed type `{resolvee_path}` is not a copyable type, which a packed type marked as cloneable requires"
+                );
+            }
         }
     }
 
